@@ -4,8 +4,12 @@
 (* link result of a fixed graph after the corresponding damage (two bit     *)
 (* sets merged into one chunk, a file in two chunks, a lost side-effect     *)
 (* import of an entry chunk, a lost export, a static back edge, an          *)
-(* assignment from another chunk, a colliding alias) and accepts the        *)
-(* undamaged result.  Checked by TLC as assumptions (no behaviours).        *)
+(* assignment from another chunk, a colliding alias, an entry chunk that    *)
+(* does not import a binding its entry point re-exports through a chain)    *)
+(* and accepts the undamaged result; the export renamer model is collision  *)
+(* free on a naming that makes a renamer that forgets the names it          *)
+(* generated collide; `export *` forwards no default export and is shadowed *)
+(* by the module's own exports.  Checked by TLC as assumptions.             *)
 (***************************************************************************)
 EXTENDS LinkGen
 
@@ -29,8 +33,19 @@ BackEdge == [L0 EXCEPT !.chunks[K123].imports = @ \cup {[chunk |-> {1}, kind |->
 ForeignAssign == [L0 EXCEPT !.assigns = @ \cup {[by |-> 1, file |-> 4, name |-> "c"]}]
 Collision == [L0 EXCEPT !.chunks[K123].exports = @ \cup {[alias |-> (CHOOSE x \in L0.chunks[K123].exports : TRUE).alias, file |-> 6, name |-> "other"]}]
 
+\* m1 and m2 declare v, c, bump and m3 declares v2, c2, bump2, all in one shared chunk
+GN == Styled(Base(2, 3, <<3, 3, 3>>), 2, 9)
+\* e1: export * from r1; r1: export {v, c, bump} from m1; e2 uses m1: the bindings e1 exports live in the shared chunk
+GC == ChainGraph([ks |-> <<"star", "named">>, place |-> "shared", used |-> FALSE, mid |-> FALSE, ov |-> "a", dyn |-> FALSE])
+LC == Compute(GC)
+NoEntryImports == [LC EXCEPT !.chunks[{1}].importsFrom = {}]
+\* e1 declares v, c, bump and has `export * from m1`, m1 declares v, c, bump and a default export
+GS == ChainGraph([ks |-> <<"star">>, place |-> "shared", used |-> FALSE, mid |-> FALSE, ov |-> "c", dyn |-> FALSE])
+\* the same with m1 declaring v2, c2, bump2
+GT == ChainGraph([ks |-> <<"star">>, place |-> "shared", used |-> FALSE, mid |-> FALSE, ov |-> "b", dyn |-> FALSE])
+
 \* a trivial behaviour (TLC needs one): the checks are the assumptions below
-SanityInit == /\ label = "sanity" /\ g = G0 /\ L = L0 /\ designFailing = {} /\ loaded = <<>> /\ fired = {}
+SanityInit == /\ label = "sanity" /\ g = G0 /\ meta = <<>> /\ phase = "linked" /\ L = L0 /\ designFailing = {} /\ loaded = <<>> /\ fired = {}
               /\ evSrc = {} /\ evCh = {} /\ runs = [f \in FileIds(G0) |-> 0] /\ bad = FALSE
 SanityNext == UNCHANGED vars
 
@@ -42,5 +57,13 @@ ASSUME "ImportsResolveToExports" \in Failing(LostExport)
 ASSUME "NoStaticChunkCycle" \in Failing(BackEdge)
 ASSUME "NoCrossChunkAssignment" \in Failing(ForeignAssign)
 ASSUME "ImportsResolveToExports" \in Failing(Collision)
-ASSUME FamilyHasSharedChunks
+ASSUME \E c \in ChunkIds(L0) : ~L0.chunks[c].isEntry
+ASSUME Failing(ComputeWith(GN, TRUE)) = {}
+ASSUME "ImportsResolveToExports" \in Failing(ComputeWith(GN, FALSE))
+ASSUME Failing(LC) = {} /\ LC.chunks[{1}].importsFrom # {}
+ASSUME "EntryExportsImported" \in Failing(NoEntryImports)
+ASSUME {x.alias : x \in TableOf(GS, 1)} = {"v", "c", "bump", "peek_e1", "poke_e1"}
+ASSUME \A x \in TableOf(GS, 1) : x.file = 1
+ASSUME {x.alias : x \in TableOf(GT, 1)} = {"v", "c", "bump", "v2", "c2", "bump2", "peek_e1", "poke_e1"}
+ASSUME \E x \in TableOf(GT, 1) : x.alias = "v2" /\ x.file = 3
 =============================================================================
